@@ -18,6 +18,7 @@ extern size_t g_lb, g_pk, g_pn;
 
 static inline size_t pvec_end(const pvec* v) { return v->n; }
 static inline bool pvec_empty(const pvec* v) { return v->n == 0; }
+static inline void pvec_pop_back(pvec* v) { __CPROVER_assert(v->n > 0, "pop_back on an empty vector is undefined"); v->n--; }
 
 size_t pvec_lower_bound(const pvec* v, const c14_pollfd* x)
 __CPROVER_requires(x->fd == g_key)
